@@ -25,15 +25,15 @@ EVAL_NAMES = ['number_test', 'spatial_test', 'magnitude_test', 'pseudolikelihood
 class World:
     """Concrete realisation of the abstract forecast world: 2 cells x 2 magnitude bins."""
 
-    def __init__(self):
+    def __init__(self, ncell=2):
         import numpy
         from csep.core import regions
         self.numpy = numpy
-        origins = numpy.array([[0.0, 0.0], [1.0, 0.0]])
+        origins = numpy.array([[float(i), 0.0] for i in range(ncell)])
         self.mags = numpy.array([4.0, 5.0])
         self.make_region = lambda: regions.create_space_magnitude_region(
             regions.CartesianGrid2D.from_origins(origins, dh=1.0), self.mags)
-        self.nbins = 4
+        self.nbins = 2 * ncell
 
     def event_tuple(self, e, t):
         """abstract event -> (id, origin_time, lat, lon, depth, mag)"""
